@@ -109,6 +109,14 @@ func buildEvidence(prop string, pd *propDef, tier string, seed uint64, runs []un
 		"seeds":               "worker w of this run uses rapid seeds derived from (VERIF_SEED, w, batch)",
 		"exhaustive":          false,
 	}
+	missing := []string{}
+	for _, n := range pd.RequiredProbes {
+		if probes[n] == 0 && faults[n] == 0 {
+			missing = append(missing, n)
+		}
+	}
+	cov["required_probes"] = pd.RequiredProbes
+	cov["required_probes_not_reached"] = missing
 	return map[string]any{
 		"property_id": prop,
 		"tier":        tier,
